@@ -120,24 +120,14 @@ def pass_case(case):
     inset = set((p.name, p.arity) for p in i)
     outset = set((p.name, p.arity) for p in o)
     problems = []
-    # (a) inputs never receive new defining rules: every head atom over an input predicate in the result is, up to the
-    #     names of its variables, a head atom of ngo's own normal form of the source (a pass may split ONE rule into
-    #     several with the same head - minmax's simple translation does - which is not a new definition)
-    def head_shapes(p):
-        out = {}
-        for s in p:
-            for sg, sym in astspec.head_derived(s):
-                for q in astspec.sigs(sym):
-                    names = {}
-                    shape = re.sub(r"\b[A-Z_][A-Za-z0-9_]*\b", lambda m: names.setdefault(m.group(0), f"V{len(names)}"), str(sym))
-                    out.setdefault(q, set()).add((str(sg), shape))
-        return out
+    # (a) inputs never receive new defining rules.  Syntactically decidable part: an input predicate WITHOUT any rule in
+    #     (the normal form of) the source has none in the result.  For an input that the source itself derives, rule
+    #     splitting, unpooling and ex-/in-lining of head arithmetic change the number and the text of its rules, so
+    #     "no NEW definition" is a semantic fact there: it is decided by the equivalence checks on IN u OUT (C01, C09).
     hs, hr = heads(base), heads(res)
-    shs, shr = head_shapes(base), head_shapes(res)
     for q in sorted(inset):
-        extra_shapes = shr.get(q, set()) - shs.get(q, set())
-        if extra_shapes:
-            problems.append(("input predicate received a new defining rule", [list(q), sorted(extra_shapes)[:3]]))
+        if hs.get(q, 0) == 0 and hr.get(q, 0) > 0:
+            problems.append(("input predicate received a new defining rule", list(q)))
     # (b) invented head predicates are new w.r.t. source, IN, OUT
     invented = sorted(q for q in hr if q not in hs)
     for q in invented:
@@ -179,6 +169,51 @@ def _strip_args(stm: str) -> str:
     return re.sub(r"\b([a-z_][A-Za-z_]*?)\d+\b", r"\1", body)
 
 
+def _atom_arities(body: str):
+    """arity of every atom-like token `name(...)` / bare `name` in a directive body, in order"""
+    import re
+    out = []
+    i = 0
+    for m in re.finditer(r"(?<![A-Za-z0-9_\"@])([a-z_][A-Za-z0-9_]*)(\()?", body):
+        if m.start() < i:
+            continue
+        if m.group(2) is None:
+            out.append(0)
+            continue
+        depth, commas, j = 1, 0, m.end()
+        while j < len(body) and depth:
+            c = body[j]
+            if c == "(":
+                depth += 1
+            elif c == ")":
+                depth -= 1
+            elif c == "," and depth == 1:
+                commas += 1
+            j += 1
+        out.append(commas + 1)
+        i = j
+    return out
+
+
+def _d20_like(a: str, b: str) -> bool:
+    """what `unused' does to a directive on the unchanged tree: `#show t : body` may have body atoms shrunk/renamed;
+    `#external/#project/#heuristic a : body` may have the atom `a` shrunk/renamed, body atoms only renamed (their
+    bodies count as usage, so they keep every argument); anything else is not D20"""
+    if a == b:
+        return True
+    ka, kb = a.split(" ", 1)[0], b.split(" ", 1)[0]
+    if ka != kb or ka not in ("#show", "#external", "#project", "#heuristic", "#edge"):
+        return False
+    ha, _, ba = a.partition(":")
+    hb, _, bb = b.partition(":")
+    if ka == "#show":
+        return ha == hb
+    if ka == "#edge" and ha != hb:
+        return False
+    return _atom_arities(ba.split("[")[0]) == _atom_arities(bb.split("[")[0]) and ba.count("[") == bb.count("[") and \
+        ba.partition("[")[2] == bb.partition("[")[2]
+
+
 def classify(text, flags, problem):
     """attribute a pass-level deviation to a known finding, by the hypothesis of the _partial statement it falsifies"""
     kind, detail = problem
@@ -191,8 +226,7 @@ def classify(text, flags, problem):
             return "D10"
         # D20: `unused' drops argument positions also inside the conditions of #show terms, #external, #project ...
         if flags is None or flags.get("unused"):
-            if len(src) == len(res) and all(a == b or (a.startswith("#") and _strip_args(a) == _strip_args(b))
-                                            for a, b in zip(src, res)):
+            if len(src) == len(res) and all(_d20_like(a, b) for a, b in zip(src, res)):
                 return "D20"
         # D21: normalisation (comparison chains, #count, guards) is applied inside #show-term / #external conditions
         if len(src) == len(res):
@@ -282,6 +316,16 @@ def run(ctx) -> int:
             text = gen.mutate(rng, text)
         if rng.random() < 0.3:
             text += "\n" + gen.other_stm(rng)
+        if rng.random() < 0.25:
+            # a directive over the program's own predicates, with variables that occur nowhere else
+            ps = sorted(semcheck.predicates_of(corpus.parses(text) or []))
+            ps = [q for q in ps if q[1] > 0]
+            if ps:
+                (n1, a1), (n2, a2) = rng.choice(ps), rng.choice(ps)
+                at1 = f"{n1}({','.join('X' + str(k) for k in range(a1))})"
+                at2 = f"{n2}({','.join('Y' + str(k) for k in range(a2))})"
+                text += "\n" + rng.choice([f"#heuristic {at1} : {at2}. [Y0@0,true]", f"#edge (X0,Y0) : {at1}, {at2}.",
+                                           f"#external {at1} : {at2}.", f"#show t(Y0) : {at2}.", f"#project {at1} : {at2}."])
         flags = rng.choice([default, default, allf, semcheck.flags_only(rng.choice(semcheck.ALL_TRAITS)), semcheck.flags_only()])
         preds = sorted(semcheck.predicates_of(corpus.parses(text) or []))
         inp = "auto" if rng.random() < 0.6 or not preds else rng.sample(preds, min(len(preds), rng.choice([1, 2])))
